@@ -87,12 +87,22 @@ func (c *allOfConstraintCompiler) extend(node schema.Node, schemaNames []string)
 		panic(errors.ErrTypeNameNotFoundInAllOfRule)
 	}
 
+	// Every parent is looked up before the node is touched: a name which is not
+	// found (or is not an object) must not leave the node extended by the parents
+	// listed before it, with the rule still in place; the node may be compiled
+	// once more, as a type of another schema which knows all the names.
+	parents := make([]*schema.ObjectNode, 0, len(schemaNames))
 	for _, name := range schemaNames {
-		c.extendWith(node, name)
+		parents = append(parents, c.parent(node, name))
+	}
+
+	for i := range schemaNames {
+		c.extendWith(node, parents[i])
 	}
 }
 
-func (c *allOfConstraintCompiler) extendWith(node schema.Node, name string) {
+// parent returns the object of the type `name`, which the node inherits from.
+func (c *allOfConstraintCompiler) parent(node schema.Node, name string) *schema.ObjectNode {
 	lex := node.BasisLexEventOfSchemaForNode()
 	defer lexeme.CatchLexEventErrorWithIncorrectUserType(
 		lex,
@@ -111,10 +121,19 @@ func (c *allOfConstraintCompiler) extendWith(node schema.Node, name string) {
 
 	// It is not obligatory to make a check for casting to type *schema.ObjectNode.
 	// The constraint cannot be applied to other types of nodes.
-	toObject, ok := node.(*schema.ObjectNode)
-	if !ok {
+	if _, ok := node.(*schema.ObjectNode); !ok {
 		panic(errors.Format(errors.ErrUnexpectedConstraint, constraint.AllOfConstraintType.String(), node.Type().String())) //nolint:lll
 	}
+	return fromObject
+}
+
+func (c *allOfConstraintCompiler) extendWith(node schema.Node, fromObject *schema.ObjectNode) {
+	lex := node.BasisLexEventOfSchemaForNode()
+	defer lexeme.CatchLexEventErrorWithIncorrectUserType(
+		lex,
+		lex.File().Name(),
+	)
+	toObject := node.(*schema.ObjectNode) //nolint:errcheck // Checked by parent.
 
 	if fromAdditionalProperties := fromObject.Constraint(constraint.AdditionalPropertiesConstraintType); fromAdditionalProperties != nil { //nolint:lll
 		fromAdditionalProperties := fromAdditionalProperties.(*constraint.AdditionalProperties)                                          //nolint:errcheck // We're sure about this type.
